@@ -7,98 +7,170 @@ the Rust iterator by the `C interp` correspondence lines of every run.  Script s
 flat interpreter).
 
 T1  `interp_sound`         interpreter accepts  ⇒  Script accepts, with a clean stack
-      * `interp_sound_full`     full statement (all fragments) — kept as a `def … : Prop`
-      * `interp_sound_partial`  PROVED for the fragment set `Sup`: 0, 1, pk_k, pk_h, raw_pkh, after,
-        older, the four hashes, a:, s:, c:, d:, v:, n:, and_v, and_b, or_b, or_c, or_d, or_i, andor,
-        thresh (any k, n), multi (CHECKMULTISIG key walk, incl. the exchange argument for a Script
-        oracle that accepts more than the interpreter's), multi_a — i.e. everything the script
-        decoder can produce except `j:`.
-        Missing: j: (`SIZE 0NOTEQUAL` needs the element's length to be a 4-byte script number, i.e.
-        a bound < 2^31 on witness element sizes that the statement does not carry); sortedmulti /
-        sortedmulti_a nodes never reach the interpreter (the decoder yields multi / multi_a).
-        Uses C06's exact-argument-count lemmas (`TypeSound.args_cons`, `framed_frag`) for s: / d:,
-        C01's script-number lemmas (`SatSpec.numOk_of_lt`) and CHECKMULTISIG evaluation
-        (`SatSpec.frag_multi`) for thresh / multi / multi_a.
+      * `interp_sound_partial`  PROVED for EVERY miniscript the script decoder can produce (`WF`:
+        0, 1, pk_k, pk_h, raw_pkh, after, older, the four hashes, a: s: c: d: v: j: n:, and_v, and_b,
+        or_b, or_c, or_d, or_i, andor, thresh (any k, n), multi (CHECKMULTISIG key walk with the
+        exchange argument), multi_a).  `_partial` because of two hypotheses: limits off (`NoLimits`)
+        and transaction version ≥ 2 (`Agree.version`).
+      * `interp_sound_full` (no version assumption) is FALSE: `interp_sound_full_false`, from the
+        counterexample `interp_unsound_csv_tx_version_1` — the remaining finding `csv-tx-version-1`.
+      * witness elements are assumed shorter than 2^31 bytes (`TopSound`; needed by `j:`)
       * `interp_fragment_sound_partial`  the simulation per base type (B / V / K / W)
       * `interp_accept_imp_script_accepts_partial`  composition with `Thm/Bridge.lean`: the flat
         opcode interpreter accepts the encoded script
-      * `lockOk_of_lt`: the lock-value side condition `LockOk` holds for every `0 < n < 2^31`
-      * `interp_sound_any_verifier_partial`: the same for `iter_assume_sigs` / `iter_custom` — any
-        verifier, as long as Script runs with the same one (`Agree.withVerifier`)
+      * `interp_sound_any_verifier_partial`: the same for `iter_assume_sigs` / `iter_custom`
+      * concrete accepting runs (`msBig_run_multi`, `msBig_run_thresh`, `msTap_run`) through multi,
+        thresh, multi_a, s:, d:, j:, a hash and both locks, and the resulting Script acceptances
 T2  `constraints_checked`  every reported constraint was checked successfully (ALL fragments) and
-      holds in Script's environment (`constraints_hold_for_script`)
-Remaining finding, proved on the model as a counterexample to the unconditional statement:
-      `interp_unsound_csv_tx_version_1` (the interpreter never sees the transaction version; this is
-      the only finding-related clause left in `Agree`).
-Fixed in /repo and followed by the model (the former counterexamples are now positive facts):
-      `after_final_sequence_rejected` (BIP65 final input, fix 1d81d5db),
-      `schnorr_parse_is_bip341` (65-byte signature with sighash byte 0x00, fix bda5c1de),
-      `committed_script_is_the_element` (script element `[01]` / `[]`, fix be897bb9).
+      holds in Script's environment (`constraints_hold_for_script`);
+    `reported_constraints_exact_partial`  conversely the report is EXACTLY the list of successful
+      checks of an instrumented reading of the Script semantics (fragment set `InterpChecks.CSup`)
+T3  `constraints_satisfy_policy_partial`  the reported constraints make `Spec/MsSem.sem` true
+      (all fragments; descriptor AST, i.e. no bare raw_pkh)
+Open: "accepts every satisfaction the library produces" (composition of C01's soundness with a
+      completeness lemma of the model interpreter on canonical witnesses) — judged per run only
+      (`J interp-accepts-own`, `J interp-accepts-own-m`).
+Fixed in /repo and followed by the model (positive facts): `after_final_sequence_rejected`,
+      `schnorr_parse_is_bip341`, `committed_script_is_the_element`.
 -/
 import MsVerif.Lemmas.InterpSound
 import MsVerif.Lemmas.InterpConstraints
 import MsVerif.Thm.Bridge
+import MsVerif.Lemmas.InterpPolicy
+import MsVerif.Lemmas.InterpChecks
 
 namespace MsVerif.C13
 open MsVerif Script Interp InterpSound
 
 /-! ### T1 -/
 
-/-- interpreter accepts ⇒ the structured Script semantics ends with exactly one true element -/
+/-- interpreter accepts ⇒ the structured Script semantics ends with exactly one true element.
+The witness elements are shorter than 2^31 bytes (BIP141 / policy: ≤ 520 bytes for v0 and tapscript;
+consensus: the 4 MB block weight) — `j:` computes `SIZE` of one of them as a 4-byte script number -/
 def TopSound (env : Env) (ke : KeyEnv) (ie : IEnv) (ctx : Ctx) (ms : Ms) : Prop :=
   ∀ ty, typeOf ms = some ty → ty.corr.base = .B →
-    ∀ (c : List Bytes) (cs : List Constraint), interpTop ke ie ms (absS c) = .ok cs →
+    ∀ (c : List Bytes) (cs : List Constraint), (∀ e ∈ c, e.length < 2 ^ 31) →
+      interpTop ke ie ms (absS c) = .ok cs →
       ∃ v ops', frag env ke ctx ms ⟨c, [], 0⟩ = .ok ⟨[v], [], ops'⟩ ∧ castToBool v = true
 
 mutual
-/-- side conditions of the full statement: the AST is one the script decoder produces (no
-`sortedmulti` node), keys are well-formed for the context, thresholds are `1 ≤ k ≤ n`, lock values
-round-trip through the script-number codec, `multi` / `multi_a` live in the right context -/
+/-- the side conditions under which T1 is stated: the AST is one the script decoder produces (no
+`sortedmulti` / `sortedmulti_a` node), keys are well-formed for the context, thresholds are
+`1 ≤ k ≤ n` (with `n ≤ 20` for CHECKMULTISIG), lock values are what `AbsLockTime` / `RelLockTime`
+can carry, `multi` / `multi_a` live in the right context -/
 def WF (env : Env) (ke : KeyEnv) : Ms → Prop
   | .tru | .fls | .pkH _ | .rawPkH _ | .hash _ _ => True
   | .pkK k => pubkeyOk env (ke.ser k) = true
-  | .after n | .older n => LockOk env n
+  | .after n | .older n => 0 < n ∧ n < 2 ^ 31
   | .alt x | .swap x | .check x | .dupIf x | .verify x | .nonZero x | .zeroNotEqual x => WF env ke x
   | .andV l r | .andB l r | .orB l r | .orC l r | .orD l r | .orI l r => WF env ke l ∧ WF env ke r
   | .andOr a b c => WF env ke a ∧ WF env ke b ∧ WF env ke c
-  | .thresh k xs => 1 ≤ k ∧ k ≤ xs.length ∧ WFList env ke xs
+  | .thresh k xs => 1 ≤ k ∧ k ≤ xs.length ∧ xs.length < 2 ^ 31 ∧ WFList env ke xs
   | .multi k ks =>
     env.flags.tapscript = false ∧ 1 ≤ k ∧ k ≤ ks.length ∧ ks.length ≤ 20
       ∧ ∀ key ∈ ks, pubkeyOk env (ke.ser key) = true
   | .multiA k ks =>
-    env.flags.tapscript = true ∧ 1 ≤ k ∧ k ≤ ks.length ∧ ∀ key ∈ ks, pubkeyOk env (ke.ser key) = true
+    env.flags.tapscript = true ∧ 1 ≤ k ∧ k ≤ ks.length ∧ ks.length < 2 ^ 31
+      ∧ ∀ key ∈ ks, pubkeyOk env (ke.ser key) = true
   | .sortedMulti _ _ | .sortedMultiA _ _ => False
 def WFList (env : Env) (ke : KeyEnv) : MsList → Prop
   | .nil => True
   | .cons x xs => WF env ke x ∧ WFList env ke xs
 end
 
-/-- T1, full strength (not proved; see the header for what is missing) -/
-def interp_sound_full : Prop :=
-  ∀ (env : Env) (ke : KeyEnv) (ie : IEnv) (ctx : Ctx) (ms : Ms),
-    NoLimits env → Agree env ie → WF env ke ms → TopSound env ke ie ctx ms
+/-- the lock-value side condition of `Sup` (script-number codec round trip) holds for every value
+an `AbsLockTime` / `RelLockTime` can carry -/
+theorem lockOk_of_lt (env : Env) {n : Nat} (h0 : 0 < n) (h : n < 2 ^ 31) : LockOk env n := by
+  have ok := SatSpec.numOk_of_lt n (by omega)
+  have d4 := ok.1 env.flags.minimalNum
+  refine ⟨?_, ?_, h0, ?_, ?_⟩
+  · rw [lockVal_eq]; exact SatSpec.numDecode_5_of_4 d4
+  · rw [lockVal_eq]; exact d4
+  · rw [lockVal_eq]; exact ok.2 (by omega)
+  · show n < 2147483648; omega
+
+mutual
+/-- C06's structural well-formedness (`thresh` non-empty, `multi` ≤ 20 keys) follows from `WF` -/
+theorem wf_of_WF {env : Env} {ke : KeyEnv} : (ms : Ms) → WF env ke ms → TypeSound.wf ms = true
+  | .tru, _ | .fls, _ | .pkK _, _ | .pkH _, _ | .rawPkH _, _ | .after _, _ | .older _, _ | .hash _ _, _ => rfl
+  | .alt x, h | .swap x, h | .check x, h | .dupIf x, h | .verify x, h | .nonZero x, h
+  | .zeroNotEqual x, h => by simp only [TypeSound.wf]; exact wf_of_WF x h
+  | .andV l r, h | .andB l r, h | .orB l r, h | .orC l r, h | .orD l r, h | .orI l r, h => by
+    simp only [TypeSound.wf, Bool.and_eq_true]; exact ⟨wf_of_WF l h.1, wf_of_WF r h.2⟩
+  | .andOr a b c, h => by
+    simp only [TypeSound.wf, Bool.and_eq_true]
+    exact ⟨⟨wf_of_WF a h.1, wf_of_WF b h.2.1⟩, wf_of_WF c h.2.2⟩
+  | .thresh k xs, h => by
+    simp only [TypeSound.wf, Bool.and_eq_true, decide_eq_true_eq]
+    exact ⟨by have := h.1; have := h.2.1; omega, wfL_of_WFList xs h.2.2.2⟩
+  | .multi k ks, h => by simp only [TypeSound.wf, decide_eq_true_eq]; exact h.2.2.2.1
+  | .multiA _ _, _ => rfl
+  | .sortedMulti _ _, h => h.elim
+  | .sortedMultiA _ _, h => h.elim
+theorem wfL_of_WFList {env : Env} {ke : KeyEnv} : (xs : MsList) → WFList env ke xs → TypeSound.wfL xs = true
+  | .nil, _ => rfl
+  | .cons x xs, h => by
+    simp only [TypeSound.wfL, Bool.and_eq_true]; exact ⟨wf_of_WF x h.1, wfL_of_WFList xs h.2⟩
+end
+
+mutual
+/-- the natural side conditions imply the proof's fragment predicate: EVERY fragment the script
+decoder can produce is covered -/
+theorem sup_of_WF {env : Env} {ke : KeyEnv} : (ms : Ms) → WF env ke ms → Sup env ke ms
+  | .tru, _ | .fls, _ | .pkH _, _ | .rawPkH _, _ | .hash _ _, _ => trivial
+  | .pkK _, h => h
+  | .after n, h | .older n, h => lockOk_of_lt env h.1 h.2
+  | .alt x, h | .check x, h | .verify x, h | .nonZero x, h | .zeroNotEqual x, h => sup_of_WF x h
+  | .swap x, h | .dupIf x, h => ⟨sup_of_WF x h, wf_of_WF x h⟩
+  | .andV l r, h | .andB l r, h | .orB l r, h | .orC l r, h | .orD l r, h | .orI l r, h =>
+    ⟨sup_of_WF l h.1, sup_of_WF r h.2⟩
+  | .andOr a b c, h => ⟨sup_of_WF a h.1, sup_of_WF b h.2.1, sup_of_WF c h.2.2⟩
+  | .thresh k xs, h => ⟨h.1, by have := h.2.1; have := h.2.2.1; omega, h.2.2.1, supList_of_WFList xs h.2.2.2⟩
+  | .multi k ks, h => h
+  | .multiA k ks, h =>
+    ⟨h.1, by have := h.2.2.1; have := h.2.2.2.1; omega, h.2.2.2.1,
+      by intro e; subst e; have := h.2.1; have := h.2.2.1; simp at *; omega, h.2.2.2.2⟩
+  | .sortedMulti _ _, h => h.elim
+  | .sortedMultiA _ _, h => h.elim
+theorem supList_of_WFList {env : Env} {ke : KeyEnv} : (xs : MsList) → WFList env ke xs → SupList env ke xs
+  | .nil, _ => trivial
+  | .cons x xs, h => ⟨sup_of_WF x h.1, supList_of_WFList xs h.2⟩
+end
+
+theorem smallA_of_forall {c : List Bytes} (h : ∀ e ∈ c, e.length < 2 ^ 31) : SmallA (absS c) := by
+  intro b hb
+  simp only [absS, List.mem_map] at hb
+  obtain ⟨e, he, heq⟩ := hb
+  obtain ⟨e1, _, _⟩ := ofBytes_push heq
+  subst e1
+  exact h e he
 
 /-- T1 per fragment: the simulation between the abstract-stack evaluator and Script, for every
 base type (`Post`: what is left on the concrete stack, with an arbitrary rest below, an arbitrary
-alt stack and opcode counter, and how the result relates to the interpreter's result element) -/
+alt stack and opcode counter, and how the result relates to the interpreter's result element).
+`_partial`: limits off (`NoLimits`) and transaction version ≥ 2 (`Agree.version`, see
+`interp_sound_full_false`) are assumed. -/
 theorem interp_fragment_sound_partial {env : Env} {ke : KeyEnv} {ie : IEnv} {ctx : Ctx}
     (hl : NoLimits env) (ag : Agree env ie) (ms : Ms) (ty : Ty) (hty : typeOf ms = some ty)
-    (hs : Sup env ke ms) (c : List Bytes) (a' : AStack) (cs : List Constraint)
-    (hi : interp ke ie ms (absS c) = .ok (a', cs)) :
+    (hs : WF env ke ms) (c : List Bytes) (hsz : ∀ e ∈ c, e.length < 2 ^ 31) (a' : AStack)
+    (cs : List Constraint) (hi : interp ke ie ms (absS c) = .ok (a', cs)) :
     Post env ke ctx ms ty.corr.base ty.corr.unit c a' :=
-  sound hl ag ms ty hty hs c a' cs hi
+  sound hl ag ms ty hty (sup_of_WF ms hs) c a' cs (smallA_of_forall hsz) hi
 
-/-- T1 at top level for the proved fragment set -/
+/-- T1 at top level, for EVERY miniscript the script decoder can produce.
+`_partial`: limits off (`NoLimits`: op-count / stack-size limits are static properties of the
+script, C09/C12) and transaction version ≥ 2 (`Agree.version`; without it the statement is false:
+`interp_sound_full_false`). -/
 theorem interp_sound_partial {env : Env} {ke : KeyEnv} {ie : IEnv} {ctx : Ctx}
-    (hl : NoLimits env) (ag : Agree env ie) (ms : Ms) (hs : Sup env ke ms) :
+    (hl : NoLimits env) (ag : Agree env ie) (ms : Ms) (hs : WF env ke ms) :
     TopSound env ke ie ctx ms := by
-  intro ty hty hb c cs hi
+  intro ty hty hb c cs hsz hi
   unfold interpTop at hi
   cases hx : interp ke ie ms (absS c) with
   | error e => simp [hx] at hi
   | ok p =>
     obtain ⟨a', cs'⟩ := p
-    have P := sound (ctx := ctx) hl ag ms ty hty hs c a' cs' hx
+    have P := sound (ctx := ctx) hl ag ms ty hty (sup_of_WF ms hs) c a' cs' (smallA_of_forall hsz) hx
     rw [hb] at P
     obtain ⟨r, c0, ha, F⟩ := P
     subst ha
@@ -115,25 +187,14 @@ theorem interp_sound_partial {env : Env} {ke : KeyEnv} {ie : IEnv} {ctx : Ctx}
 
 /-- T1 composed with the bridge theorem (`Thm/Bridge.lean`): the FLAT opcode interpreter
 `Script.run` accepts the ENCODED script on the very stack the transaction interpreter accepted
-(CLEANSTACK form: exactly one true element is left) -/
+(CLEANSTACK form: exactly one true element is left).  `_partial` as `interp_sound_partial`. -/
 theorem interp_accept_imp_script_accepts_partial {env : Env} {ke : KeyEnv} {ie : IEnv} {ctx : Ctx}
-    (hl : NoLimits env) (ag : Agree env ie) (ms : Ms) (hs : Sup env ke ms) (ty : Ty)
+    (hl : NoLimits env) (ag : Agree env ie) (ms : Ms) (hs : WF env ke ms) (ty : Ty)
     (hty : typeOf ms = some ty) (hb : ty.corr.base = .B) (c : List Bytes) (cs : List Constraint)
-    (hi : interpTop ke ie ms (absS c) = .ok cs) :
+    (hsz : ∀ e ∈ c, e.length < 2 ^ 31) (hi : interpTop ke ie ms (absS c) = .ok cs) :
     accepts env (encode ke ctx ms) c = true := by
-  obtain ⟨v, o, hf, hv⟩ := interp_sound_partial (ctx := ctx) hl ag ms hs ty hty hb c cs hi
+  obtain ⟨v, o, hf, hv⟩ := interp_sound_partial (ctx := ctx) hl ag ms hs ty hty hb c cs hsz hi
   exact (Bridge.accepts_iff_frag_nolimits env ke ctx ms c ⟨hl.op, hl.st⟩).mpr ⟨_, v, hf, rfl, hv⟩
-
-/-- the lock-value side condition of `Sup` (script-number codec round trip) holds for every value
-an `AbsLockTime` / `RelLockTime` can carry -/
-theorem lockOk_of_lt (env : Env) {n : Nat} (h0 : 0 < n) (h : n < 2 ^ 31) : LockOk env n := by
-  have ok := SatSpec.numOk_of_lt n (by omega)
-  have d4 := ok.1 env.flags.minimalNum
-  refine ⟨?_, ?_, h0, ?_, ?_⟩
-  · rw [lockVal_eq]; exact SatSpec.numDecode_5_of_4 d4
-  · rw [lockVal_eq]; exact d4
-  · rw [lockVal_eq]; exact ok.2 (by omega)
-  · show n < 2147483648; omega
 
 /-- `iter_assume_sigs` and `iter_custom`: T1 holds for ANY verifier `f`, as long as Script is run
 with the same `f` as its signature oracle (`iter_assume_sigs`: `f` = "has the shape of a
@@ -141,7 +202,7 @@ signature"; `iter_custom`: the caller's closure).  The per-run judges `J interp-
 `C interp-m` instantiate exactly this. -/
 theorem interp_sound_any_verifier_partial {env : Env} {ke : KeyEnv} {ie : IEnv} {ctx : Ctx}
     (f : Bytes → Bytes → Bool) (hl : NoLimits env) (ag : Agree env ie) (ms : Ms)
-    (hs : Sup { env with sigOk := f } ke ms) :
+    (hs : WF { env with sigOk := f } ke ms) :
     TopSound { env with sigOk := f } ke { ie with verifySig := f } ctx ms :=
   interp_sound_partial (env := { env with sigOk := f }) ⟨hl.op, hl.st⟩ (ag.withVerifier f) ms hs
 
@@ -201,6 +262,104 @@ theorem constraints_hold_for_script {env : Env} {ke : KeyEnv} {ie : IEnv} (ag : 
       · have := v1.mp hh; simp [hh, this]
       · have : ¬ (n / Interp.SEQ_TYPE % 2 = 1) := fun x => hh (v1.mpr x)
         rw [beq_eq_false_iff_ne.mpr hh, beq_eq_false_iff_ne.mpr this]
+
+/-! ### "the reported constraints satisfy the lifted policy" -/
+
+/-- the world the reported constraints describe: it can sign for exactly the keys a signature was
+reported for, knows exactly the preimages reported, and has the transaction's lock fields -/
+def worldOf (ke : KeyEnv) (ie : IEnv) (cs : List Constraint) : Pol.World where
+  canSign k := cs.any fun c => match c with
+    | .pk pk _ => pk == ke.ser k
+    | .pkh _ pk _ => pk == ke.ser k
+    | _ => false
+  preimage kind h := cs.any fun c => match c with
+    | .hashLock k hv _ => decide (MsSem.polHash k = kind) && hv == ke.hashVal k h
+    | _ => false
+  nLockTime := ie.lockTime
+  nSequence := ie.sequence
+
+theorem worldOf_covers (ke : KeyEnv) (ie : IEnv) (cs : List Constraint) :
+    InterpPolicy.WLe ke ie cs (worldOf ke ie cs) where
+  lt := rfl
+  sq := rfl
+  cov := by
+    intro c hc
+    cases c with
+    | pk pk sg =>
+      intro k hk
+      exact List.any_eq_true.mpr ⟨_, hc, by simp [hk]⟩
+    | pkh hh pk sg =>
+      intro k hk
+      exact List.any_eq_true.mpr ⟨_, hc, by simp [hk]⟩
+    | hashLock kind hv pre =>
+      intro h hh
+      exact List.any_eq_true.mpr ⟨_, hc, by simp [hh]⟩
+    | after n => trivial
+    | older n => trivial
+
+/-- whenever the model interpreter accepts, the constraints it reports make the spending
+condition `Spec/MsSem.sem` of the miniscript true (the per-run judge `J policy` checks the same
+on the real library).  All fragments incl. thresh / multi / multi_a, typed by the library's rules.
+`_partial`: the AST is the descriptor's (`pk_h` carries its key; a bare `expr_raw_pkh` names no
+key, `MsSem.sem` is false for it), HASH160 is collision-free on the script's keys
+(`KeyHashFaithful`), nSequence is a 32-bit value. -/
+theorem constraints_satisfy_policy_partial {ke : KeyEnv} {ie : IEnv}
+    (hf : InterpPolicy.KeyHashFaithful ke ie) (hseq : ie.sequence < 2 ^ 32)
+    (ms : Ms) (ty : Ty) (hty : typeOf ms = some ty) (hb : ty.corr.base = .B) (hn : InterpPolicy.NoRaw ms)
+    (st : AStack) (cs : List Constraint) (hi : interpTop ke ie ms st = .ok cs) :
+    MsSem.sem (worldOf ke ie cs) ms = true := by
+  unfold interpTop at hi
+  cases hx : interp ke ie ms st with
+  | error e => simp [hx] at hi
+  | ok p =>
+    obtain ⟨a', cs'⟩ := p
+    have P := InterpPolicy.policy hf hseq ms ty hty hn st a' cs' (worldOf ke ie cs') hx (worldOf_covers ke ie cs')
+    rw [hb] at P
+    obtain ⟨r, st', ha, _, hs⟩ := P
+    subst ha
+    simp only [hx] at hi
+    cases r with
+    | dissat => simp at hi
+    | push b => simp at hi
+    | sat =>
+      cases st' with
+      | cons e t => simp at hi
+      | nil => simp at hi; subst hi; exact hs rfl
+
+/-! ### "the reported constraints are exactly the checks the executed path performed" -/
+
+/-- COMPLETENESS of the report: the model interpreter's constraint list is, element for element
+and in order, the list of checks an instrumented reading of the Script semantics performs
+successfully on the accepted spend (`InterpChecks.checksOf`: CHECKSIG / CHECKSIGADD with a valid
+non-empty signature, opened hash locks, the values CLTV / CSV are run on) — nothing missing,
+nothing extra; a key-hash constraint counts as the signature check of `pk_h` (`norm`).  Together
+with `constraints_checked` (every reported constraint was checked) this is "exactly".
+`_partial`: fragment set `InterpChecks.CSup` = everything except `s:`, `d:` (a frame lemma for
+`checksOf` is missing), `thresh`, `multi` (under the one-directional oracle Script may match a
+signature to an earlier key than the interpreter) and `c:` over compound K fragments; plus the
+hypotheses of `interp_sound_partial`.  The per-run judge `J constraints` checks the same equality
+(as multisets, on the flat executor) for ALL fragments on the real library. -/
+theorem reported_constraints_exact_partial {env : Env} {ke : KeyEnv} {ie : IEnv} {ctx : Ctx}
+    (hl : NoLimits env) (ag : Agree env ie) (ms : Ms) (hs : WF env ke ms) (hcs : InterpChecks.CSup ms)
+    (ty : Ty) (hty : typeOf ms = some ty) (hb : ty.corr.base = .B) (c : List Bytes)
+    (cs : List Constraint) (hsz : ∀ e ∈ c, e.length < 2 ^ 31)
+    (hi : interpTop ke ie ms (absS c) = .ok cs) :
+    InterpChecks.checksOf env ke ctx ms c = cs.map InterpChecks.norm := by
+  unfold interpTop at hi
+  cases hx : interp ke ie ms (absS c) with
+  | error e => simp [hx] at hi
+  | ok p =>
+    obtain ⟨a', cs'⟩ := p
+    have P := InterpChecks.complete (ctx := ctx) hl ag ms ty hty (sup_of_WF ms hs) hcs c a' cs'
+      (smallA_of_forall hsz) hx
+    rw [hb] at P
+    simp only [hx] at hi
+    have : cs' = cs := by
+      cases a' with
+      | nil => simp at hi
+      | cons e t => cases e <;> cases t <;> simp at hi <;> exact hi
+    subst this
+    simpa using P []
 
 /-! ### findings: where the literal interpreter is more permissive than Script -/
 
@@ -266,73 +425,169 @@ theorem committed_script_is_the_element :
   cases e <;> simp [committedScriptBytes, Elem.bytes] at h ⊢
   exact h.symm
 
-/-! ### non-vacuity -/
+/-- T1 WITHOUT the transaction-version assumption (every other clause of `Agree` kept) -/
+def AgreeNoVersion (env : Env) (ie : IEnv) : Prop :=
+  (∀ pk sg, ie.verifySig pk sg = true → env.sigOk pk sg = true)
+  ∧ (∀ pk, ie.keyParse pk = true → pubkeyOk env pk = true)
+  ∧ (∀ b, ie.hash160 b = env.hash .hash160 b) ∧ (∀ k b, ie.hash k b = env.hash (hkOp k) b)
+  ∧ ie.lockTime = env.nLockTime ∧ ie.sequence = env.nSequence
 
-def K0 : Bytes := 2 :: List.replicate 32 7
-def S0 : Bytes := [0x30, 0x01]
-def keX : KeyEnv := ⟨fun _ => K0, fun _ => K0, fun _ => [], fun _ => [], fun _ _ => []⟩
-def envX : Env := ⟨flags0, fun pk sg => pk == K0 && sg == S0, fun _ _ => [], 100, 10, 2⟩
-def ieX : IEnv := ⟨fun pk sg => pk == K0 && sg == S0, fun _ => false, fun b => envX.hash .hash160 b,
-  fun k b => envX.hash (hkOp k) b, 100, 10, 2⟩
+/-- the statement one would like: T1 for every transaction version.  FALSE (next theorem): the
+interpreter never receives the version, `older(n)` in a version-1 transaction is the remaining
+finding `csv-tx-version-1` -/
+def interp_sound_full : Prop :=
+  ∀ (env : Env) (ke : KeyEnv) (ie : IEnv) (ctx : Ctx) (ms : Ms),
+    NoLimits env → AgreeNoVersion env ie → WF env ke ms → TopSound env ke ie ctx ms
 
-theorem envX_nolimits : NoLimits envX := ⟨rfl, rfl⟩
+theorem interp_sound_full_false : ¬ interp_sound_full := by
+  intro hfull
+  have hag : AgreeNoVersion (envOf 10 1) (ieOf 10 1) :=
+    ⟨fun pk sg hh => by simp [ieOf] at hh, fun pk hh => by simp [ieOf] at hh, fun _ => rfl, fun _ _ => rfl, rfl, rfl⟩
+  obtain ⟨v, o, hf, _⟩ := hfull (envOf 10 1) ke0 (ieOf 10 1) .segwitv0 (.older 10) ⟨rfl, rfl⟩ hag
+    ⟨by decide, by decide⟩ Ty.time rfl rfl [] [.older 10] (by simp) interp_unsound_csv_tx_version_1.1
+  rw [interp_unsound_csv_tx_version_1.2] at hf
+  cases hf
 
-theorem envX_agree : Agree envX ieX where
-  sig := by
-    intro pk sg h
-    simp [ieX] at h
-    obtain ⟨h1, h2⟩ := h
-    subst h1; subst h2
-    decide
-  key := by intro pk h; simp [ieX] at h
+/-! ### non-vacuity: concrete, nested objects meeting every hypothesis, with accepting runs -/
+
+/-- four 33-byte keys `02 k 07…07`, the signature `30 k` valid for key `k` only -/
+def ser3 (k : Nat) : List UInt8 := 2 :: UInt8.ofNat k :: List.replicate 31 7
+def sig3 (k : Nat) : List UInt8 := [0x30, UInt8.ofNat k]
+def ok3 (ser : Nat → List UInt8) (pk sg : List UInt8) : Bool :=
+  (List.range 4).any fun k => pk == ser k && sg == sig3 k
+/-- every hash of a 32-byte string is `[32]`, and that is the committed value -/
+def ke3 : KeyEnv := ⟨ser3, ser3, fun _ => [], fun _ => [], fun _ _ => [32]⟩
+def env3 : Env := ⟨flags0, ok3 ser3, fun _ b => [UInt8.ofNat b.length], 100, 10, 2⟩
+def ie3 : IEnv := ⟨ok3 ser3, fun pk => pk.length == 33 && pk.head? == some 2, fun b => env3.hash .hash160 b,
+  fun k b => env3.hash (hkOp k) b, 100, 10, 2⟩
+def pre32 : List UInt8 := List.replicate 32 1
+
+theorem env3_nolimits : NoLimits env3 := ⟨rfl, rfl⟩
+
+theorem env3_agree : Agree env3 ie3 where
+  sig := fun _ _ h => h
+  key := by
+    intro pk h
+    simp only [ie3, Bool.and_eq_true, beq_iff_eq] at h
+    simp [pubkeyOk, env3, flags0, h.1, h.2]
   h160 := fun _ => rfl
   hash := fun _ _ => rfl
   lockTime := rfl
   sequence := rfl
   version := by decide
 
-theorem lockOk_100 : LockOk envX 100 := ⟨by decide, by decide, by decide, by decide, by decide⟩
-theorem lockOk_10 : LockOk envX 10 := ⟨by decide, by decide, by decide, by decide, by decide⟩
+def pk3 (k : Nat) : Ms := .check (.pkK k)
 
-/-- `and_v(v:pk(K), andor(older(10)?…` — a concrete supported script: `and_v(v:c:pk_k(0), after(100))` -/
-def msX : Ms := .andV (.verify (.check (.pkK 0))) (.after 100)
+/-- `or_d(multi(2,K0,K1,K2), and_v(v:thresh(2,pk(K0),s:pk(K1),a:sha256(H)),
+     and_v(v:and_b(j:pk(K3), a:d:v:older(10)), after(100))))` — multi, thresh, a hash, both locks and
+every wrapper the earlier versions of T1 excluded (`s:`, `d:`, `j:`) -/
+def msBig : Ms :=
+  .orD (.multi 2 [0, 1, 2])
+    (.andV (.verify (.thresh 2 (.cons (pk3 0) (.cons (.swap (pk3 1)) (.cons (.alt (.hash .sha256 0)) .nil)))))
+      (.andV (.verify (.andB (.nonZero (pk3 3)) (.alt (.dupIf (.verify (.older 10)))))) (.after 100)))
 
-theorem supX : Sup envX keX msX := ⟨(by decide : pubkeyOk envX K0 = true), lockOk_100⟩
+def tyBig : Ty := ⟨⟨.B, .any, false, false⟩, ⟨.none, true, false⟩⟩
 
-/-- the hypotheses of `interp_sound_partial` are satisfiable and its conclusion is not vacuous:
-the interpreter accepts the witness `[S0]`, hence Script does -/
-example : ∃ v ops', frag envX keX .segwitv0 msX ⟨[S0], [], 0⟩ = .ok ⟨[v], [], ops'⟩ ∧ castToBool v = true :=
-  interp_sound_partial (ctx := .segwitv0) envX_nolimits envX_agree msX supX
-    ⟨⟨.B, .oneNonZero, false, false⟩, ⟨.none, true, true⟩⟩ (by decide) rfl [S0] [.pk K0 S0, .after 100] rfl
+theorem msBig_typed : typeOf msBig = some tyBig := by decide
 
-example : AllValid ieX [.pk K0 S0, .after 100] :=
-  constraints_checked (ke := keX) msX (absS [S0]) _ rfl
+theorem pk3_ok (k : Nat) (hk : k < 4) : pubkeyOk env3 (ke3.ser k) = true := by
+  have : k = 0 ∨ k = 1 ∨ k = 2 ∨ k = 3 := by omega
+  rcases this with e | e | e | e <;> subst e <;> decide
 
-/-- `thresh(1, pk(K), s:pk(K))` and `or_d(multi(1,K,K), and_v(v:pk(K), older(10)))`: the fragments
-added with C06's frame lemmas and C01's number / CHECKMULTISIG lemmas -/
-def msT : Ms := .thresh 1 (.cons (.check (.pkK 0)) (.cons (.swap (.check (.pkK 0))) .nil))
-def msM : Ms := .orD (.multi 1 [0, 0]) (.andV (.verify (.check (.pkK 0))) (.older 10))
+theorem msBig_wf : WF env3 ke3 msBig := by
+  refine ⟨⟨rfl, by decide, by decide, by decide, ?_⟩,
+    ⟨by decide, by decide, by decide, pk3_ok 0 (by decide), pk3_ok 1 (by decide), trivial, trivial⟩,
+    ⟨pk3_ok 3 (by decide), by decide, by decide⟩, by decide, by decide⟩
+  intro key hkey
+  simp at hkey
+  rcases hkey with e | e | e <;> subst e <;> decide
 
-theorem supT : Sup envX keX msT :=
-  ⟨by decide, by decide, by decide, (by decide : pubkeyOk envX K0 = true),
-    ⟨(by decide : pubkeyOk envX K0 = true), rfl⟩, trivial⟩
+/-- the interpreter model ACCEPTS through the `multi` branch: signatures of K2 and K1 over the dummy -/
+theorem msBig_run_multi : ∃ cs, interpTop ke3 ie3 msBig (absS [sig3 2, sig3 1, []]) = .ok cs := ⟨_, rfl⟩
 
-theorem supM : Sup envX keX msM :=
-  ⟨⟨rfl, by decide, by decide, by decide, fun key _ => (by decide : pubkeyOk envX K0 = true)⟩,
-    (by decide : pubkeyOk envX K0 = true), lockOk_10⟩
+/-- … and through the other branch: `multi` dissatisfied (three empty elements), then
+thresh = pk(K0) ✓, s:pk(K1) ✗, a:sha256 ✓; `j:pk(K3)` with a signature; `d:` taken; both locks met -/
+theorem msBig_run_thresh :
+    ∃ cs, interpTop ke3 ie3 msBig (absS [[], [], [], sig3 0, [], pre32, sig3 3, [1]]) = .ok cs := ⟨_, rfl⟩
 
-example : ∃ v ops', frag envX keX .segwitv0 msT ⟨[S0, []], [], 0⟩ = .ok ⟨[v], [], ops'⟩ ∧ castToBool v = true :=
-  interp_sound_partial (ctx := .segwitv0) envX_nolimits envX_agree msT supT
-    ⟨⟨.B, .any, true, true⟩, ⟨.unique, true, true⟩⟩ (by decide) rfl [S0, []] [.pk K0 S0] rfl
+/-- hence (T1 + bridge) the flat Script interpreter accepts the encoded script on both witnesses -/
+theorem msBig_script_accepts_multi : accepts env3 (encode ke3 .segwitv0 msBig) [sig3 2, sig3 1, []] = true := by
+  obtain ⟨cs, h⟩ := msBig_run_multi
+  exact interp_accept_imp_script_accepts_partial (ctx := .segwitv0) env3_nolimits env3_agree msBig msBig_wf
+    tyBig msBig_typed rfl _ cs (by decide) h
 
-example : accepts envX (encode keX .segwitv0 msT) [S0, []] = true :=
-  interp_accept_imp_script_accepts_partial (ctx := .segwitv0) envX_nolimits envX_agree msT supT
-    ⟨⟨.B, .any, true, true⟩, ⟨.unique, true, true⟩⟩ (by decide) rfl [S0, []] [.pk K0 S0] rfl
+theorem msBig_script_accepts_thresh :
+    accepts env3 (encode ke3 .segwitv0 msBig) [[], [], [], sig3 0, [], pre32, sig3 3, [1]] = true := by
+  obtain ⟨cs, h⟩ := msBig_run_thresh
+  exact interp_accept_imp_script_accepts_partial (ctx := .segwitv0) env3_nolimits env3_agree msBig msBig_wf
+    tyBig msBig_typed rfl _ cs (by decide) h
 
-/-- for a script with `multi` the theorem applies to whatever the interpreter accepts -/
-example (c : List Bytes) (cs : List Constraint) (hi : interpTop keX ieX msM (absS c) = .ok cs) :
-    accepts envX (encode keX .segwitv0 msM) c = true :=
-  interp_accept_imp_script_accepts_partial (ctx := .segwitv0) envX_nolimits envX_agree msM supM
-    ⟨⟨.B, .any, false, false⟩, ⟨.none, true, true⟩⟩ (by decide) rfl c cs hi
+/-- the constraints reported on that run are checked ones (T2) -/
+example : ∀ cs, interpTop ke3 ie3 msBig (absS [[], [], [], sig3 0, [], pre32, sig3 3, [1]]) = .ok cs →
+    ∀ c ∈ cs, HoldsForScript env3 c :=
+  fun cs h => constraints_hold_for_script env3_agree msBig _ cs h
+
+/-- … and satisfy the spending condition (policy claim), on both runs -/
+theorem msBig_policy_thresh : ∀ cs, interpTop ke3 ie3 msBig (absS [[], [], [], sig3 0, [], pre32, sig3 3, [1]]) = .ok cs →
+    MsSem.sem (worldOf ke3 ie3 cs) msBig = true :=
+  fun cs h => constraints_satisfy_policy_partial (fun _ _ hh => by simp [ie3, env3, ke3] at hh) (by decide)
+    msBig tyBig msBig_typed rfl (by simp [msBig, pk3, InterpPolicy.NoRaw, InterpPolicy.NoRawL]) _ cs h
+
+/-- `or_d(pk(K0), and_v(v:and_b(j:pk(K3), a:sha256(H)), after(100)))` lies in the fragment set of
+the completeness theorem; on the witness `[<>, sig3, preimage]` the interpreter accepts and its
+report is exactly the executed checks: the signature for K3, the hash lock, the lock value -/
+def msC : Ms :=
+  .orD (pk3 0) (.andV (.verify (.andB (.nonZero (pk3 3)) (.alt (.hash .sha256 0)))) (.after 100))
+
+theorem msC_wf : WF env3 ke3 msC :=
+  ⟨pk3_ok 0 (by decide), ⟨pk3_ok 3 (by decide), trivial⟩, by decide, by decide⟩
+
+theorem msC_exact :
+    interpTop ke3 ie3 msC (absS [[], sig3 3, pre32])
+      = .ok [.pk (ser3 3) (sig3 3), .hashLock .sha256 [32] pre32, .after 100]
+    ∧ InterpChecks.checksOf env3 ke3 .segwitv0 msC [[], sig3 3, pre32]
+      = [.pk (ser3 3) (sig3 3), .hashLock .sha256 [32] pre32, .after 100] := by
+  have hrun : interpTop ke3 ie3 msC (absS [[], sig3 3, pre32])
+      = .ok [.pk (ser3 3) (sig3 3), .hashLock .sha256 [32] pre32, .after 100] := rfl
+  refine ⟨hrun, ?_⟩
+  have := reported_constraints_exact_partial (ctx := .segwitv0) env3_nolimits env3_agree msC msC_wf
+    (by simp [msC, pk3, InterpChecks.CSup]) ⟨⟨.B, .any, false, false⟩, ⟨.none, true, true⟩⟩ (by decide) rfl
+    _ _ (by decide) hrun
+  simpa [InterpChecks.norm] using this
+
+/-! tapscript: `and_v(v:multi_a(2,X0,X1,X2), after(100))` with x-only keys -/
+
+def serx (k : Nat) : List UInt8 := UInt8.ofNat k :: List.replicate 31 7
+def flagsT : Flags := ⟨true, true, true, true, true, false, false⟩
+def ke3t : KeyEnv := ⟨serx, serx, fun _ => [32], fun _ => [32], fun _ _ => [32]⟩
+def env3t : Env := ⟨flagsT, ok3 serx, fun _ b => [UInt8.ofNat b.length], 100, 10, 2⟩
+def ie3t : IEnv := ⟨ok3 serx, fun pk => pk.length == 32, fun b => env3t.hash .hash160 b,
+  fun k b => env3t.hash (hkOp k) b, 100, 10, 2⟩
+def msTap : Ms := .andV (.verify (.multiA 2 [0, 1, 2])) (.after 100)
+
+theorem env3t_agree : Agree env3t ie3t where
+  sig := fun _ _ h => h
+  key := by
+    intro pk h
+    simp only [ie3t, beq_iff_eq] at h
+    simp [pubkeyOk, env3t, flagsT, h]
+  h160 := fun _ => rfl
+  hash := fun _ _ => rfl
+  lockTime := rfl
+  sequence := rfl
+  version := by decide
+
+theorem msTap_wf : WF env3t ke3t msTap := by
+  refine ⟨⟨rfl, by decide, by decide, by decide, ?_⟩, by decide, by decide⟩
+  intro key hkey
+  simp at hkey
+  rcases hkey with e | e | e <;> subst e <;> decide
+
+theorem msTap_run : ∃ cs, interpTop ke3t ie3t msTap (absS [sig3 0, [], sig3 2]) = .ok cs := ⟨_, rfl⟩
+
+theorem msTap_script_accepts : accepts env3t (encode ke3t .tap msTap) [sig3 0, [], sig3 2] = true := by
+  obtain ⟨cs, h⟩ := msTap_run
+  exact interp_accept_imp_script_accepts_partial (ctx := .tap) ⟨rfl, rfl⟩ env3t_agree msTap msTap_wf
+    ⟨⟨.B, .any, false, false⟩, ⟨.none, true, true⟩⟩ (by decide) rfl _ cs (by decide) h
 
 end MsVerif.C13
